@@ -100,7 +100,8 @@ def run(ck):
     greg = lib.region(prog, g, within=lambda h_: h_.base.startswith(T) and h_.base not in (T + "handlePeerDisconnection",))
     for name, pred in effects.items():
         cnt = count_on_paths(g, pred, prog=prog)
-        evs[name] = [e for h_ in greg for e in h_.events("call") if pred(e)]
+        # (a helper or lambda whose body was expanded into removePeer is looked at there, with its parameters bound)
+        evs[name] = [e for h_ in greg if h_.id not in getattr(g, "inlined_funcs", ()) for e in h_.events("call") if pred(e)]
         ck.ob("C08-R2", "removePeer/%s-once" % name, cnt == [1], evs[name][0].loc if evs[name] else g.loc, g, "occurrences per non-throwing path: %s" % cnt)
     if evs["removeFd"] and evs["close"]:
         # no path reaches close() before removeFd() (walking through the helpers the routine was split into)
